@@ -66,6 +66,19 @@ func (e *Exec) vndCall(th *Thread, fn *ssa.Function, a []Value) Value {
 	switch fn.Name() {
 	case "Bool":
 		return e.vndVar(str(0), BoolSort)
+	case "LogLevel":
+		v := e.vndVar("vnd.trace-logging", BoolSort)
+		e.assume(c.Eq(v, c.Bool(e.opts.LogEnabled)))
+		if e.opts.LogEnabled {
+			return e.intConst(8, -1) // zerolog.TraceLevel
+		}
+		return e.intConst(8, 7) // zerolog.Disabled
+	case "TraceLogging":
+		// a named value fixed by the harness options: it travels in the model, so the native
+		// replay builds its services with the same log level
+		v := e.vndVar("vnd.trace-logging", BoolSort)
+		e.assume(c.Eq(v, c.Bool(e.opts.LogEnabled)))
+		return c.Bool(e.opts.LogEnabled)
 	case "U8":
 		return e.vndInt(str(0), 8, false)
 	case "U16":
